@@ -25,6 +25,9 @@ CONSTANTS N,          \* threads 1..N
           LTW, LTR,   \* lock_type tables as records [zlo, zhi, add, sww, coa, cour]
           TaFix,      \* mu_wait.c: the stores that end mu_try_acquire_after_timeout_or_cancel keep MU_WRITER_WAITING cleared (TRUE, after the
                       \* fix) or put back the word loaded before the acquiring CAS, resurrecting the bit (FALSE: known defect 6.7)
+          GenFix,     \* cv.c wake_waiters transfers to the mutex queue only waiters that wait with that nsync_mu itself (TRUE, after the fix) or
+                      \* every waiter struct behind the first one, including generic-lock waiters (cv_mu = NULL), which re-acquire through
+                      \* their own lock routine and never clear MU_DESIG_WAKER (FALSE: defect 6.8)
           CvFix,      \* cv.c wakes nsync_wait_n records under the cv spinlock (TRUE, after the fix) or in wake_waiters (FALSE)
           DbgFixed,   \* debug.c releases the spinlock by CAS loop (TRUE) or by a plain store of the stale word (FALSE)
           Loopers     \* threads whose program restarts for ever (C14 bargers)
@@ -116,19 +119,20 @@ SignalPick(q, wl) ==
 SelectSeq2(s, T(_)) == SelectSeq(s, T)
 AllReaders(q, wl) == \A i \in 1..Len(q) : IsMuCv(q[i]) /\ wl[q[i]] = 2
 \* wake_waiters' transfer decision (cv.c:80-125): which of tw move to the mutex queue
-RECURSIVE XferRest(_, _, _, _, _)
-XferRest(q, wl, fca, fw, acc) ==
+RECURSIVE XferRest(_, _, _, _, _, _)
+\* cm[p]: waiter p waits with the nsync_mu itself (cv_mu = pmu); a generic-lock waiter has cv_mu = NULL and l_type = NULL (wl = 0)
+XferRest(q, wl, cm, fca, fw, acc) ==
   IF q = <<>> THEN acc
   ELSE LET p == Head(q)  pw == IsMuCv(p) /\ wl[p] = 1
-       IN IF ~IsMuCv(p) THEN XferRest(Tail(q), wl, fca, fw, [acc EXCEPT !.keep = Append(@, p)])
+       IN IF ~IsMuCv(p) \/ (GenFix /\ ~cm[p]) THEN XferRest(Tail(q), wl, cm, fca, fw, [acc EXCEPT !.keep = Append(@, p)])
           ELSE IF fca \/ fw \/ pw
-            THEN XferRest(Tail(q), wl, fca, fw, [acc EXCEPT !.move = Append(@, p), !.tw = @ \/ pw])
-            ELSE XferRest(Tail(q), wl, fca, fw, [acc EXCEPT !.keep = Append(@, p), !.wr = @ \/ ~pw])
-Xfer(tw, wl, fca) ==
+            THEN XferRest(Tail(q), wl, cm, fca, fw, [acc EXCEPT !.move = Append(@, p), !.tw = @ \/ pw])
+            ELSE XferRest(Tail(q), wl, cm, fca, fw, [acc EXCEPT !.keep = Append(@, p), !.wr = @ \/ ~pw])
+Xfer(tw, wl, cm, fca) ==
   LET f == Head(tw)  fw == wl[f] = 1
       a0 == IF fca THEN [move |-> <<f>>, keep |-> <<>>, tw |-> fw, wr |-> FALSE]
                    ELSE [move |-> <<>>, keep |-> <<f>>, tw |-> FALSE, wr |-> ~fw]
-  IN XferRest(Tail(tw), wl, fca, fw, a0)
+  IN XferRest(Tail(tw), wl, cm, fca, fw, a0)
 
 (* --algorithm mu {
   variables
@@ -414,7 +418,7 @@ Xfer(tw, wl, fca) ==
              if (~(AnyLock(omw) # 0 /\ (omw & SPIN) = 0 /\ (fca \/ (Len(tw) > 1 /\ ~allr)))) { goto ww_5_st; };
    ww_2_cas: if (word = omw) {                                                   \* cv.c:67 ATM_CAS_ACQ
                word := Clr((omw | SPIN) | WAITING, ALLF);
-               with (x = Xfer(tw, wl, fca)) {
+               with (x = Xfer(tw, wl, cvmu, fca)) {
                  queue := queue \o x.move;
                  cvmu := [u \in Waiters |-> IF \E i \in 1..Len(x.move) : x.move[i] = u THEN FALSE ELSE cvmu[u]];
                  tw := x.keep;
@@ -630,29 +634,29 @@ Xfer(tw, wl, fca) ==
   }
 } *)
 \* BEGIN TRANSLATION
-\* Procedure variable old of procedure lock_slow at line 182 col 15 changed to old_
-\* Procedure variable old of procedure unlock_slow at line 221 col 15 changed to old_u
-\* Procedure variable rmq of procedure unlock_slow at line 221 col 101 changed to rmq_
-\* Procedure variable old of procedure mu_lock at line 282 col 15 changed to old_m
-\* Procedure variable old of procedure mu_trylock at line 295 col 15 changed to old_mu
-\* Procedure variable old of procedure mu_unlock at line 306 col 15 changed to old_mu_
-\* Procedure variable old of procedure try_acquire at line 336 col 15 changed to old_t
-\* Procedure variable old of procedure mu_wait at line 363 col 15 changed to old_mu_w
-\* Procedure variable lt of procedure mu_wait at line 363 col 24 changed to lt_
-\* Procedure variable out of procedure mu_wait at line 363 col 46 changed to out_
-\* Procedure variable rc of procedure mu_wait at line 363 col 55 changed to rc_
-\* Procedure variable so of procedure mu_wait at line 363 col 86 changed to so_
-\* Procedure variable old of procedure cv_wake at line 434 col 15 changed to old_c
-\* Procedure variable old of procedure cv_wait at line 466 col 15 changed to old_cv
-\* Procedure variable lt of procedure cv_wait at line 466 col 24 changed to lt_c
-\* Procedure variable rc of procedure cv_wait at line 466 col 32 changed to rc_c
-\* Parameter lt of procedure lock_slow at line 181 col 23 changed to lt_l
-\* Parameter lt of procedure unlock_slow at line 220 col 25 changed to lt_u
-\* Parameter lt of procedure mu_lock at line 281 col 21 changed to lt_m
-\* Parameter lt of procedure mu_trylock at line 294 col 24 changed to lt_mu
-\* Parameter lt of procedure mu_unlock at line 305 col 23 changed to lt_mu_
-\* Parameter dl of procedure mu_wait at line 362 col 24 changed to dl_
-\* Parameter cn of procedure mu_wait at line 362 col 28 changed to cn_
+\* Procedure variable old of procedure lock_slow at line 186 col 15 changed to old_
+\* Procedure variable old of procedure unlock_slow at line 225 col 15 changed to old_u
+\* Procedure variable rmq of procedure unlock_slow at line 225 col 101 changed to rmq_
+\* Procedure variable old of procedure mu_lock at line 286 col 15 changed to old_m
+\* Procedure variable old of procedure mu_trylock at line 299 col 15 changed to old_mu
+\* Procedure variable old of procedure mu_unlock at line 310 col 15 changed to old_mu_
+\* Procedure variable old of procedure try_acquire at line 340 col 15 changed to old_t
+\* Procedure variable old of procedure mu_wait at line 367 col 15 changed to old_mu_w
+\* Procedure variable lt of procedure mu_wait at line 367 col 24 changed to lt_
+\* Procedure variable out of procedure mu_wait at line 367 col 46 changed to out_
+\* Procedure variable rc of procedure mu_wait at line 367 col 55 changed to rc_
+\* Procedure variable so of procedure mu_wait at line 367 col 86 changed to so_
+\* Procedure variable old of procedure cv_wake at line 438 col 15 changed to old_c
+\* Procedure variable old of procedure cv_wait at line 470 col 15 changed to old_cv
+\* Procedure variable lt of procedure cv_wait at line 470 col 24 changed to lt_c
+\* Procedure variable rc of procedure cv_wait at line 470 col 32 changed to rc_c
+\* Parameter lt of procedure lock_slow at line 185 col 23 changed to lt_l
+\* Parameter lt of procedure unlock_slow at line 224 col 25 changed to lt_u
+\* Parameter lt of procedure mu_lock at line 285 col 21 changed to lt_m
+\* Parameter lt of procedure mu_trylock at line 298 col 24 changed to lt_mu
+\* Parameter lt of procedure mu_unlock at line 309 col 23 changed to lt_mu_
+\* Parameter dl of procedure mu_wait at line 366 col 24 changed to dl_
+\* Parameter cn of procedure mu_wait at line 366 col 28 changed to cn_
 CONSTANT defaultInitValue
 VARIABLES pc, word, queue, cvword, cvq, waiting, rmc, cvmu, wl, wc, sc, nww, 
           nwsem, nww2, nreg2, sem, data, now, note, nreg, held, ret, sres, 
@@ -1195,7 +1199,7 @@ us_rs_cas(self) == /\ pc[self] = "us_rs_cas"
 us_scan_l(self) == /\ pc[self] = "us_scan_l"
                    /\ LET r == Scan(nwl[self], 1, <<>>, wty[self], sor[self], sc, wc, wl, data, tc[self]) IN
                         /\ Assert(tc[self] => ((word & WLOCK) # 0 /\ \A u \in Threads : held[u] = 0), 
-                                  "Failure of assertion at line 252, column 16.")
+                                  "Failure of assertion at line 256, column 16.")
                         /\ nwl' = [nwl EXCEPT ![self] = r.l]
                         /\ rmq_' = [rmq_ EXCEPT ![self] = r.wake]
                         /\ wake' = [wake EXCEPT ![self] = wake[self] \o r.wake]
@@ -2673,7 +2677,7 @@ ww_1_ld(self) == /\ pc[self] = "ww_1_ld"
 ww_2_cas(self) == /\ pc[self] = "ww_2_cas"
                   /\ IF word = omw[self]
                         THEN /\ word' = Clr((omw[self] | SPIN) | WAITING, ALLF)
-                             /\ LET x == Xfer(tw[self], wl, fca[self]) IN
+                             /\ LET x == Xfer(tw[self], wl, cvmu, fca[self]) IN
                                   /\ queue' = queue \o x.move
                                   /\ cvmu' = [u \in Waiters |-> IF \E i \in 1..Len(x.move) : x.move[i] = u THEN FALSE ELSE cvmu[u]]
                                   /\ tw' = [tw EXCEPT ![self] = x.keep]
